@@ -1,24 +1,24 @@
-\* the same control restricted to source times at or behind the local clock: no violation (this is why the skew has to be an input)
+\* the same control restricted to catalogs that fit into one page: no violation (this is why the size of the catalog has to be an input)
 SPECIFICATION Spec
 CHECK_DEADLOCK FALSE
 INVARIANTS TypeOK ContractMilvus ContractKafka
 CONSTANTS
-  DBs <- TwoDBs
+  DBs <- OneDB
   CNames <- OneC
   PNames <- OneP
-  MaxInc = 1
-  MaxPInc = 1
+  MaxInc = 2
+  MaxPInc = 2
   DbStates = {"live", "goneDown", "goneBoth"}
-  CStates = {"created", "dropping", "dropped", "tombstone"}
+  CStates = {"created", "dropped", "tombstone"}
   PStates = {"created", "dropped"}
   Concrete <- NamesPlain
   Now = 100
-  Skews = {"behind", "equal"}
+  Skews = {"behind"}
   FillGaps = "off"
   FillN = 0
   Page = 1000
-  ListTruncated = FALSE
-  ClampLocal = TRUE
+  ListTruncated = TRUE
+  ClampLocal = FALSE
   FixStaleDb = TRUE
   LiveDbGuard = TRUE
   SafeKeys = TRUE
